@@ -33,7 +33,14 @@ import (
 	"strings"
 )
 
-const repo = "/repo"
+// repo is /repo; VERIF_CODECGEN_REPO overrides it for the generator's own tests only
+var repo = func() string {
+	if r := os.Getenv("VERIF_CODECGEN_REPO"); r != "" {
+		return r
+	}
+	return "/repo"
+}()
+
 const verifRoot = "/verif"
 
 // directories named by the property's anchors: each must still contain at least one codec
@@ -135,6 +142,11 @@ func main() {
 		}
 		if strings.HasSuffix(p, "_skyencoder.go") {
 			files = append(files, p)
+		} else if strings.HasSuffix(p, ".go") && !strings.HasSuffix(p, "_test.go") {
+			// a generated codec that moved to a differently named file must not drop out of the registry unnoticed
+			if b, err := os.ReadFile(p); err == nil && bytes.Contains(b, []byte("\nfunc encodeSize")) {
+				die("%s declares a func encodeSize... outside a *_skyencoder.go file (renamed codec file?)", p)
+			}
 		}
 		return nil
 	})
